@@ -228,6 +228,7 @@ type Path struct {
 	allocs   []string
 	dead     bool
 	fnret    map[string]Val // last value returned by a call through a function-valued parameter
+	lastAcq  *HeapView // heap right after the latest write-lock acquisition in the function under verification
 	bases    []string
 	acq      map[string]HeapView // heap at the acquisition of a monitored lock (for two-state guarantees)
 }
@@ -251,6 +252,7 @@ func (p *Path) clone() *Path {
 	}
 	q.trace = append([]string(nil), p.trace...)
 	q.bases = append([]string(nil), p.bases...)
+	q.lastAcq = p.lastAcq
 	q.held = append([]string(nil), p.held...)
 	if p.fnret != nil {
 		q.fnret = map[string]Val{}
